@@ -210,6 +210,16 @@ func ruleC11_2(c *Ctx) {
 			if in == "" {
 				in = c.P.ShortName(st.Parent())
 			}
+			// the store is harmless when no caller on the exchange can hand over a request in the state that leads to it
+			excl, exwhy, sites := c.requestStateExcluded(st.Parent(), c.underLeaves(st.Block()))
+			if exwhy != "" {
+				why += "; the state is not excluded by the callers: " + exwhy
+			}
+			if excl {
+				c.Pass("C11.2", "freshness-age-unreachable in="+in+" under="+c.underKey(st.Block()),
+					"a made-up age is stored only for a request state that no call site on the exchange can hand over", append([]string{where}, sites...)...)
+				continue
+			}
 			c.Fail("C11.2", "freshness-age-fabricated in="+in+" under="+c.underKey(st.Block()), desc,
 				where+": "+why+". Witness: request `max-age=0, only-if-cached` (or SWR / stale-if-error with request max-age=0) emits `Age: 0` for an old entry", where)
 		}
@@ -550,6 +560,10 @@ func ruleC11_4(c *Ctx) {
 	}
 	c.ForbidOb("C11.4", "row=stale-not-HIT", map[string]bool{"fr.stale": true}, "STATUS-HIT", isHit, false,
 		"a stale entry served under only-if-cached is marked HIT although the status table says STALE")
+	// the staleness flag is relaxed under the request's max-stale; a response whose age has reached its lifetime is
+	// still served "while stale"
+	c.ForbidOb("C11.4", "row=past-lifetime-not-HIT", map[string]bool{"fr.age>=life": true}, "STATUS-HIT", isHit, false,
+		"a response 50 s past its lifetime served under `max-stale=1000` is marked HIT")
 }
 
 func ruleC11_5(c *Ctx) {
